@@ -79,6 +79,8 @@ def main():
                         res.setdefault("replay_heads", []).append(open(p).read()[:600])
         finally:
             sh("git -C /repo checkout -- .")
+            # the translators wrote model parts generated from the seeded source: regenerate from the clean tree
+            sh("python3 tools/gen_constants.py; python3 tools/gen_locks.py", cwd=VERIF)
     dst = os.path.join(VERIF, "seeded", name)
     os.makedirs(dst, exist_ok=True)
     for f in os.listdir(src):
